@@ -298,6 +298,88 @@ pub fn p_w2_threads() -> u64 {
     a ^ (b << 16)
 }
 
+// ---- wave 3 of the refactoring corpus: slice patterns, a user-defined double-ended iterator driven through rev(), references compared
+// by value, partition_point / binary_search_by, Option::filter / map_or_else, div_ceil, trailing_zeros bit scans
+struct Countdown {
+    lo: u64,
+    hi: u64,
+}
+impl Iterator for Countdown {
+    type Item = u64;
+    fn next(&mut self) -> Option<u64> {
+        if self.lo < self.hi {
+            self.lo += 1;
+            Some(self.lo - 1)
+        } else {
+            None
+        }
+    }
+}
+impl DoubleEndedIterator for Countdown {
+    fn next_back(&mut self) -> Option<u64> {
+        if self.lo < self.hi {
+            self.hi -= 1;
+            Some(self.hi)
+        } else {
+            None
+        }
+    }
+}
+pub fn p_w3_slice_patterns() -> u64 {
+    let v = [3u64, 1, 4, 1, 5];
+    let mut rest: &[u64] = &v;
+    let mut acc = 0u64;
+    let mut n = 0u64;
+    while let [first, tail @ ..] = rest {
+        acc = acc * 7 + *first;
+        n += 1;
+        rest = tail;
+    }
+    let last = match &v[..] {
+        [.., z] => *z,
+        [] => 0,
+    };
+    let mid = match &v[..] {
+        [_, m @ .., _] => m.len() as u64,
+        _ => 99,
+    };
+    acc ^ (n << 40) ^ (last << 50) ^ (mid << 56)
+}
+pub fn p_w3_user_rev() -> u64 {
+    let a: Vec<u64> = Countdown { lo: 2, hi: 7 }.rev().collect();
+    let mut it = Countdown { lo: 0, hi: 5 };
+    let x = it.next().unwrap();
+    let y = it.next_back().unwrap();
+    let rest: Vec<u64> = it.collect();
+    h(&a) ^ (x << 3) ^ (y << 9) ^ (h(&rest) << 1)
+}
+pub fn p_w3_refs_search() -> u64 {
+    let v = [1u64, 3, 3, 5, 8, 13];
+    let a = &v[1];
+    let b = &v[2];
+    let same = (&a == &b) as u64;
+    let diff = (&a != &&v[3]) as u64;
+    let pp = v.partition_point(|e| *e < 5) as u64;
+    let bs = match v.binary_search_by(|e| e.cmp(&8)) {
+        Ok(i) => i as u64,
+        Err(i) => 100 + i as u64,
+    };
+    let bs2 = match v.binary_search_by(|e| e.cmp(&4)) {
+        Ok(i) => i as u64,
+        Err(i) => 100 + i as u64,
+    };
+    let f = Some(6u64).filter(|x| x % 2 == 0).map_or_else(|| 0, |x| x + 1);
+    let g = Some(7u64).filter(|x| x % 2 == 0).map_or(40, |x| x + 1);
+    let dc = 7usize.div_ceil(2) as u64;
+    let mut bits = 0b1011_0100u8;
+    let mut tz = 0u64;
+    while bits != 0 {
+        tz = tz * 10 + bits.trailing_zeros() as u64;
+        bits &= bits - 1;
+    }
+    same ^ (diff << 1) ^ (pp << 2) ^ (bs << 8) ^ (bs2 << 16) ^ (f << 28) ^ (g << 34) ^ (dc << 42) ^ (tz << 46)
+}
+
 #[cfg(test)]
 mod probe_tests {
     use super::*;
@@ -328,6 +410,9 @@ mod probe_tests {
             ("p_w2_iters", p_w2_iters()),
             ("p_w2_misc", p_w2_misc()),
             ("p_w2_threads", p_w2_threads()),
+            ("p_w3_slice_patterns", p_w3_slice_patterns()),
+            ("p_w3_user_rev", p_w3_user_rev()),
+            ("p_w3_refs_search", p_w3_refs_search()),
         ];
         for (n, v) in all {
             println!("PROBE {} {}", n, v);
